@@ -221,7 +221,7 @@ def r4(ctx: Ctx) -> None:
         for l in lps:
             el = ("sym", f"{l.target[0]}∈{l.loopid}")
             for bp in l.paths:
-                changed = [k for k, ph in l.phi.items() if bp.env.get(k) not in (None, ph) and k not in ("best_buy_price", "best_sell_price")]
+                changed = [k for k, ph in l.phi.items() if bp.env.get(k) not in (None, ph) and ph in list(subterms(bp.env.get(k)))]  # accumulators: new value built from the old one
                 if changed and not any(_access_test(strip_ver(c), pol, el) for c, pol, _ in bp.conds):
                     ok = False
         ctx.check(ok, g, g.node, "only accessible markets contribute to the base price", "best quotes are folded in only under is_market_accessible(market)", f"{len(lps)} loop(s)")
